@@ -566,10 +566,7 @@ class C04(Property):
     title = "Automatic sizing always fits the frame, fills it, and preserves aspect ratio"
     lean_props = ["TIV.C04.Props"]
     driver = "drv_c04"
-    partial = ("the float-dependent theorems (fit_le, fit_touch, aspect_dev: names ending _partial) take the four FlLaws "
-               "facts about the concrete rounding function SF.fl (monotone, relative error <= 2^-53, exact on integers "
-               "and half-integers < 2^53) as an explicit hypothesis; softfloat_laws : FlLaws is not yet proved - it is "
-               "exercised on every run by op sf.laws (exact integer evaluation) and by bit-equality of SF with CPython")
+    partial = ""  # softfloat_laws : FlLaws is proved; nothing beyond the magnitude hypotheses is left open
     assumptions = [
         "Bnd: original size <= 2^31, terminal and cell sizes <= 2^16, 2^-20 <= pixel ratio <= 2^20 "
         "(no binary64 overflow/underflow; the model's exponent is unbounded)",
